@@ -3,7 +3,9 @@ discharge them, decode and natively replay counterexamples.  One Task = one func
 contract for one finite case of the case-split scheme (a country, a method, a length)."""
 from __future__ import annotations
 
+import os
 import random
+import re
 import time
 import traceback
 
@@ -213,7 +215,12 @@ def _merge_spec(I, paths, observe):
     return out
 
 
+TASK_BUDGET_S = int(os.environ.get("PYVC_TASK_BUDGET_S", "240"))
+
+
 def _run(task, I, res, seed, tier):
+    t_start = time.time()
+    I.deadline = t_start + TASK_BUDGET_S
     inp = task.setup(I)
     base = list(I.assumptions)
     code_paths = list(I.explore(lambda: task.code(I, inp), max_paths=task.max_paths))
@@ -227,27 +234,72 @@ def _run(task, I, res, seed, tier):
                 sw.add((w["target"], w.get("attr", w.get("key", "")), w["where"], w["line"]))
     res["shared_writes"] = sorted(sw)
 
+    by_pc = {id(p["pc"]): p for p in code_paths}
+
     def solve_clause(name, hyps, goal, kind="vc"):
         """discharge: assumptions ∧ hyps ⇒ goal"""
+        if time.time() - t_start > TASK_BUDGET_S:
+            obls.append(obligation(name, "undecided", "none (task time budget exhausted)", 0.0, kind=kind))
+            return False
         fs = list(I.assumptions) + list(hyps) + [z3.Not(as_formula(goal))]
-        fs = canon.canonicalise(fs, getattr(I, "domains", {}))
+        fs = canon.canonicalise(fs, getattr(I, "domains", {}), getattr(I, "term_domains", ()))
+        if os.environ.get("PYVC_DUMP") and os.environ["PYVC_DUMP"] in name:
+            sd = z3.Solver()
+            sd.add(*fs)
+            open("/tmp/dump.smt2", "w").write(sd.to_smt2())
         st, model, backend, secs = solve.check(fs)
         if st == "unsat":
             obls.append(obligation(name, "discharged", backend, secs, kind=kind))
+            return True
+        if kind == "cover" and st == "unknown":
+            res.setdefault("sanity_skipped", []).append(name)      # engine sanity check, not part of the property
             return True
         if st == "sat":
             wit = None
             detail = ""
             if model is not None:
                 wit = decode(model, inp)
-                detail = _replay(task, wit)
+                path = by_pc.get(id(hyps))
+                prelude = []
+                if path is not None and path.get("history"):
+                    for fn, a, kw in path["history"]:
+                        prelude.append((fn, [native_value(model, I, path, x) for x in a],
+                                        {k: native_value(model, I, path, x) for k, x in kw.items()}))
+                    wit["__earlier_calls__"] = [f"{fn.__wrapped__.__qualname__}({', '.join(_describe(x) for x in a)})"
+                                                for fn, a, kw in prelude]
+                detail = _replay(task, wit, prelude)
+                if detail.startswith("NOT-CONFIRMED"):
+                    # candidate models are not witnesses when a spec function (Num) is uninterpreted in the query:
+                    # phase 2 re-solves with Num expanded over a width-homogeneous alphabet (DESIGN 2.6)
+                    for mode in ("digits", "letters"):
+                        fs2 = expand_num(fs, mode)
+                        if fs2 is None:
+                            break
+                        st2, model2, _, secs2 = solve.check(fs2, use_cvc5=False)
+                        secs += secs2
+                        if st2 == "sat" and model2 is not None:
+                            wit2 = decode(model2, inp)
+                            prelude2 = []
+                            if path is not None and path.get("history"):
+                                for fn, a, kw in path["history"]:
+                                    prelude2.append((fn, [native_value(model2, I, path, x) for x in a],
+                                                     {k: native_value(model2, I, path, x) for k, x in kw.items()}))
+                                wit2["__earlier_calls__"] = [
+                                    f"{fn.__wrapped__.__qualname__}({', '.join(_describe(x) for x in a)})"
+                                    for fn, a, kw in prelude2]
+                            d2 = _replay(task, wit2, prelude2)
+                            if d2.startswith("CONFIRMED"):
+                                wit, detail = wit2, d2 + " (witness search with Num expanded)"
+                                break
+                    else:
+                        detail = "NOWITNESS-UF " + detail
             obls.append(obligation(name, "refuted", backend, secs, witness=wit, detail=detail, kind=kind))
             return False
         obls.append(obligation(name, "undecided", backend, secs, kind=kind))
         return False
 
     # 1. engine sanity: the code paths cover the domain
-    if code_paths:
+    if code_paths and not any(p.get("history") for p in code_paths):
         solve_clause(f"{task.name}: paths cover the input domain", [],
                      z3.Or(*[z3.And(*p["pc"]) if p["pc"] else z3.BoolVal(True) for p in code_paths]), kind="cover")
     # 2. safety obligations collected from contracts along the paths, grouped by name
@@ -324,11 +376,13 @@ def _run(task, I, res, seed, tier):
     res["crosscheck"] = k
 
 
-def spec_formula(I, fn, args):
-    """z3 formula `fn(*args) is True`, from the symbolic exploration of a boolean spec function"""
+def spec_formula(I, fn, args, ctx=()):
+    """z3 formula `fn(*args) is True`, from the symbolic exploration of a boolean spec function; `ctx` is the path
+    condition under which it is evaluated (so that facts of the code path are available to the contracts)"""
     parts = []
     cover = []
     saved = (I.decisions, I.pos, I.pc, I.heap, I.writes, I.local_ids, I.path_obligations, I.keep, I.defs)
+    I.base_pc = list(ctx)
     try:
         for p in I.explore(lambda: I.call(fn, list(args), {})):
             if p["kind"] != "return":
@@ -340,6 +394,7 @@ def spec_formula(I, fn, args):
                 continue
             parts.append(z3.And(*p["pc"], lift_bool(v)))
     finally:
+        I.base_pc = []
         (I.decisions, I.pos, I.pc, I.heap, I.writes, I.local_ids, I.path_obligations, I.keep, I.defs) = saved
     return (z3.Or(*parts) if parts else z3.BoolVal(False)), z3.Or(*cover)
 
@@ -366,8 +421,81 @@ def _has_opaque(w):
     return False
 
 
-def _replay(task, wit):
+def expand_num(fs, mode):
+    """add the exact value of every uninterpreted Num<n>(c1..cn) application occurring in fs, with characters whose
+    width is not fixed by fs restricted to digits (mode 'digits') or letters.  None if there is no such application"""
+    apps = {}
+    seen = set()
+    stack = list(fs)
+    while stack:
+        t = stack.pop()
+        if t.get_id() in seen:
+            continue
+        seen.add(t.get_id())
+        if z3.is_app(t):
+            if t.decl().kind() == z3.Z3_OP_UNINTERPRETED and re.fullmatch(r"Num\d+", t.decl().name()) and t.num_args():
+                apps[t.get_id()] = t
+            stack.extend(t.children())
+    if not apps:
+        return None
+    base = z3.Solver()
+    base.set("timeout", 3000)
+    base.add(*fs[:-1])
+    extra = []
+    width_cache = {}
+    for app in apps.values():
+        acc = z3.IntVal(0)
+        for c in app.children():
+            k = c.get_id()
+            if k not in width_cache:
+                dig = z3.And(c >= 48, c <= 57)
+                let = z3.And(c >= 65, c <= 90)
+                if base.check(z3.Not(dig)) == z3.unsat:
+                    width_cache[k] = "d"
+                elif base.check(z3.Not(let)) == z3.unsat:
+                    width_cache[k] = "l"
+                else:
+                    width_cache[k] = "d" if mode == "digits" else "l"
+                    extra.append(dig if mode == "digits" else let)
+            acc = acc * 10 + (c - 48) if width_cache[k] == "d" else acc * 100 + (c - 55)
+        extra.append(app == acc)
+    return list(fs) + extra
+
+
+def native_value(model, I, path, v):
+    """rebuild a concrete native object for a symbolic value (used for the earlier calls a path assumes)"""
+    if isinstance(v, SObj):
+        text = decode(model, payload(v)) if v.payload is not None else ""
+        obj = str.__new__(v.cls, text) if issubclass(v.cls, str) else object.__new__(v.cls)
+        for (oid, name), val in path["heap"].items():
+            if oid == id(v):
+                try:
+                    object.__setattr__(obj, name, native_value(model, I, path, val))
+                except Exception:  # noqa: BLE001
+                    pass
+        return obj
+    return decode(model, v)
+
+
+def _describe(x):
+    d = getattr(x, "__dict__", None)
+    return f"{type(x).__name__}({str(x)!r}, {d})" if d else repr(x)
+
+
+def _replay(task, wit, prelude=()):
     """native replay of a decoded counterexample; returns a description starting with CONFIRMED / NOT-CONFIRMED"""
+    if prelude:
+        try:
+            for fn, a, kw in prelude:
+                try:
+                    fn(*a, **kw)
+                except Exception:  # noqa: BLE001 - the earlier call may fail; what it left in the cache matters
+                    pass
+            return _replay(task, {k: v for k, v in wit.items() if not k.startswith("__")})
+        finally:
+            for fn, a, kw in prelude:
+                if hasattr(fn, "cache_clear"):
+                    fn.cache_clear()
     if _has_opaque(wit):
         # structural obligation over an opaque input: look for a concrete failing input among the task's samples
         rnd = random.Random(12345)
